@@ -22,11 +22,19 @@ Proof.
   cbn [all_bytes forallb] in H. apply andb_prop in H. destruct H as [_ Hr]. apply IH. exact Hr.
 Qed.
 
-Lemma all_bytes_skipz : forall (l : list Z) pos, all_bytes l = true -> all_bytes (skipz l pos) = true.
+Lemma all_bytes_tl (b : Z) (r : list Z) : all_bytes (b :: r) = true -> all_bytes r = true.
+Proof. cbn [all_bytes forallb]. intros H. apply andb_prop in H. tauto. Qed.
+
+Lemma all_bytes_skip_pos : forall p (l : list Z), all_bytes l = true -> all_bytes (skip_pos p l) = true.
 Proof.
-  induction l as [|b r IH]; intros pos H; cbn [skipz]; destruct (pos <=? 0); auto.
-  cbn [all_bytes forallb] in H. apply andb_prop in H. destruct H as [_ Hr]. apply IH. exact Hr.
+  induction p as [q IH|q IH|]; intros [|b r] H; cbn [skip_pos]; try reflexivity.
+  - apply IH, IH. eapply all_bytes_tl; exact H.
+  - apply IH, IH. exact H.
+  - eapply all_bytes_tl; exact H.
 Qed.
+
+Lemma all_bytes_skipz : forall (l : list Z) pos, all_bytes l = true -> all_bytes (skipz l pos) = true.
+Proof. intros l [|p|p] H; cbn [skipz]; auto. apply all_bytes_skip_pos. exact H. Qed.
 
 Lemma all_bytes_takez : forall (l : list Z) n, all_bytes l = true -> all_bytes (takez l n) = true.
 Proof.
@@ -297,6 +305,7 @@ Proof.
   set (x := mkctx bs (blen bs) false (fst cl) (snd cl) hdr).
   assert (Hx : ctx_good x) by (repeat split; assumption).
   eapply post_bind; [apply post_raw_read; unfold MAX_SSIZE; lia|]. intros raw _.
+  apply post_if; [apply post_ret; exact I|].
   eapply post_bind; [apply post_get_shstrndx; exact Hx|]. intros n Hn.
   eapply post_bind; [apply post_get_section_header; assumption|]. intros [sh|] Hsh.
   - eapply post_bind; [apply post_section_init; assumption|]. intros si _. apply post_ret. exact I.
